@@ -192,9 +192,18 @@ class SyncedList(SyncedCollection, MutableSequence):
         """
         data = _convert_numpy(data)
         if _sequence_resolver.get_type(data) == "SEQUENCE":
-            self._update(data)
-            with self._thread_lock:
-                self._save()
+            if self._root is None:
+                # Replacing all data of the root is destructive, so no load is
+                # required, but the change and the save must not be interleaved
+                # with other writers.
+                with self._thread_lock:
+                    self._update(data)
+                    self._save()
+            else:
+                # A nested collection is only a part of the data, so the rest
+                # must be up to date before it is saved along with the change.
+                with self._load_and_save:
+                    self._update(data)
         else:
             raise ValueError(
                 "Unsupported type: {}. The data must be a non-string sequence or None.".format(
@@ -245,10 +254,18 @@ class SyncedList(SyncedCollection, MutableSequence):
             self._data.remove(self._from_base(data=value, parent=self))
 
     def clear(self):  # noqa: D102
-        # Modify the container in place: buffered collections may share it.
-        self._data.clear()
-        with self._thread_lock:
-            self._save()
+        # The container is modified in place: buffered collections may share it.
+        if self._root is None:
+            # Clearing the root is destructive, so no load is required, but the
+            # change and the save must not be interleaved with other writers.
+            with self._thread_lock:
+                self._data.clear()
+                self._save()
+        else:
+            # A nested collection is only a part of the data, so the rest must
+            # be up to date before it is saved along with the change.
+            with self._load_and_save:
+                self._data.clear()
 
     def __lt__(self, other):
         if isinstance(other, type(self)):
